@@ -260,55 +260,73 @@ def _eval_shape(test, shape, elem, textvar=None) -> Optional[bool]:
 
 
 def w_r2_leaf_predicate(p: Project, rep: Report):
-    rep.rule("W-R2", "leaf predicate agreement: every element shape (children none/some x text none/some) for which the end-tag-less writer omits the end tag is a shape the reader closes by itself (reader: text present)")
-    wfn = p.get_function(UTILS, "tostring_unclosed_elements").node
-    elem = params_of(wfn)[0]
-    # branches of the writer: which ones contain an end-tag literal
-    top = [s for s in wfn.body if isinstance(s, ast.If)]
-    if not top:
-        raise AnalysisError("W-R2: writer has no leaf/branch decision")
-    iff = top[0]
+    rep.rule("W-R2", "leaf predicate agreement: every element shape (children none/some x text none/some) for which the end-tag-less writer omits the end tag is a shape the reader closes by itself (reader: text present).  Both sides are decided from path conditions over the atoms `element has children` / `element has text`.")
+    from . import paths as PT
+    from .flat import flat
 
-    def has_endtag(stmts):
-        return any(isinstance(c, ast.Constant) and isinstance(c.value, str) and "</" in c.value for s in stmts for c in ast.walk(s))
+    wfn0 = p.get_function(UTILS, "tostring_unclosed_elements").node
+    wfn = flat(p, UTILS, wfn0)
+    elem = params_of(wfn0)[0]
+    wx = Expander(wfn)
+    pths = PT.enumerate_paths(wfn, expander=wx)
+    cfg = pths.cfg
+    A_CH, A_TX = f"bool({elem})", f"bool({elem}.text)"
+    atoms = set(PT.atoms_of(pths))
+    odd = atoms - {A_CH, A_TX}
+    if odd:
+        raise AnalysisError(f"W-R2: writer decision depends on {sorted(odd)}")
+
+    def has_endtag(pth):
+        for nid in pth.nodes:
+            st = cfg.nodes[nid].stmt
+            if st is None or cfg.nodes[nid].kind in ("test", "loop", "join"):
+                continue
+            for c in ast.walk(st):
+                if isinstance(c, ast.Constant) and isinstance(c.value, (str, bytes)) and (b"</" in c.value if isinstance(c.value, bytes) else "</" in c.value):
+                    return True
+        return False
 
     omits: Set[Tuple[int, int]] = set()
     for sh in SHAPES:
-        v = _eval_shape(iff.test, sh, elem)
-        if v is None:
-            raise AnalysisError(f"W-R2: writer guard `{text(iff.test)}` not understood")
-        branch = iff.body if v else iff.orelse
-        if not has_endtag(branch):
+        env = {A_CH: bool(sh[0]), A_TX: bool(sh[1])}
+        ps = [q for q in pths if q.outcome in ("return", "fall") and q.holds({**{a: False for a in atoms}, **env})]
+        if not ps:
+            raise AnalysisError(f"W-R2: no writer path for shape {sh}")
+        if not all(has_endtag(q) for q in ps):
             omits.add(sh)
-    # reader: _start closes the element itself iff ...
-    rfn = p.get_function(PARSER, "TreeBuilder._start").node
-    rparams = params_of(rfn)
-    tag_p, text_p = rparams[1], rparams[2]
+    # reader
+    rfn0 = p.get_function(PARSER, "TreeBuilder._start").node
+    tb = p.get_class(PARSER, "TreeBuilder")
+    rfn = flat(p, PARSER, rfn0, tb, keep=("_start", "_feedmatch"))
+    rparams = params_of(rfn0)
+    text_p, close_p = rparams[2], rparams[3] if len(rparams) > 3 else "closetag"
+    rx_ = Expander(rfn)
+    rpths = PT.enumerate_paths(rfn, expander=rx_)
+    rcfg = rpths.cfg
+    ratoms = set(PT.atoms_of(rpths))
+    R_TX, R_CL = f"bool({text_p})", f"bool({close_p})"
+    rodd = ratoms - {R_TX, R_CL, f"{text_p} is None", f"{close_p} is None"}
+    if rodd:
+        raise AnalysisError(f"W-R2: reader decision depends on {sorted(rodd)}")
+
+    def calls_end(pth):
+        for nid in pth.nodes:
+            for c in rcfg.nodes[nid].calls():
+                if isinstance(c.func, ast.Attribute) and c.func.attr == "end" and text(c.func.value) == "self":
+                    return True
+        return False
+
     closes: Set[Tuple[int, int]] = set()
-    cfg = CFG(rfn)
-    ends = cfg.nodes_calling(lambda c: isinstance(c.func, ast.Attribute) and c.func.attr == "end" and text(c.func.value) == "self")
-    if not ends:
-        raise AnalysisError("W-R2: reader _start never closes an element")
     for sh in SHAPES:
-        # an element written without end tag arrives with closetag None
-        def flt(a, b, lab, sh=sh):
-            if a.kind == "test" and lab in ("true", "false"):
-                tx = text(a.stmt.test)
-                if tx in ("closetag", f"{rparams[3]}" if len(rparams) > 3 else "closetag"):
-                    return lab == "false"
-                v = _eval_shape(a.stmt.test, sh, "<none>", textvar=text_p)
-                if v is None:
-                    raise AnalysisError(f"W-R2: reader guard `{tx}` not understood")
-                return (lab == "true") == v
-            return True
-        r = cfg.reachable(cfg.entry.id, edge_filter=flt)
-        if any(e.id in r for e in ends):
+        # an element written without its end tag arrives with closetag None / falsy
+        env = {R_TX: bool(sh[1]), R_CL: False, f"{text_p} is None": not sh[1], f"{close_p} is None": True}
+        ps = [q for q in rpths if q.outcome in ("return", "fall") and q.holds({**{a: False for a in ratoms}, **env})]
+        if ps and all(calls_end(q) for q in ps):
             closes.add(sh)
-    # the reader cannot know about children in advance: its decision may only depend on text
     for sh in sorted(omits):
         ok = sh in closes
         rep.check("W-R2", f"tostring_unclosed_elements:shape(children={'some' if sh[0] else 'none'},text={'some' if sh[1] else 'none'})", ok,
-                  "the writer emits this element without an end tag but the reader does not close it by itself (no text): the following siblings are read as its children" if not ok else "", uloc(p, iff))
+                  "the writer emits this element without an end tag but the reader does not close it by itself (no text): the following siblings are read as its children" if not ok else "", uloc(p, wfn0))
     rep.unit("abstract_shapes", len(SHAPES))
     rep.extra["leaf_predicates"] = {"writer_omits_end_tag": sorted(omits), "reader_closes_itself": sorted(closes)}
 
@@ -330,24 +348,44 @@ def w_r6_html_names(schema: Schema, rep: Report):
 
 
 def w_r7_indent(p: Project, rep: Report):
-    rep.rule("W-R7", "the pretty-printer only writes whitespace and only where there is none: every store to .text is inside the has-children branch and guarded by `not elem.text or not elem.text.strip()`; .tail stores are guarded likewise; stored values are built from newline and spaces")
-    fn = p.get_function(UTILS, "indent").node
-    elem = params_of(fn)[0]
-    stores = [s for s in own_statements(fn) if isinstance(s, ast.Assign) and isinstance(s.targets[0], ast.Attribute) and s.targets[0].attr in ("text", "tail")]
+    rep.rule("W-R7", "the pretty-printer only writes whitespace and only where there is none: on every path, the conditions before a store to X.text / X.tail imply that X.text / X.tail is empty or blank; .text is stored only on elements that have children; stored values are built from newline and spaces")
+    from . import paths as PT
+    from .flat import flat
+
+    fn0 = p.get_function(UTILS, "indent").node
+    fn = flat(p, UTILS, fn0)
+    elem = params_of(fn0)[0]
+    ex = Expander(fn)
+    pths = PT.enumerate_paths(fn, expander=ex)
+    cfg = pths.cfg
+    stores = [n for n in cfg.nodes if isinstance(n.stmt, ast.Assign) and n.kind == "assign" and isinstance(n.stmt.targets[0], ast.Attribute) and n.stmt.targets[0].attr in ("text", "tail")]
     if not stores:
         raise AnalysisError("W-R7: indent stores nothing")
-    ex = Expander(fn)
-    for i, s in enumerate(stores):
-        attr = s.targets[0].attr
-        obj = text(s.targets[0].value)
-        g = parent(s)
-        guard_ok = isinstance(g, ast.If) and s in g.body and text(norm(g.test)).replace(" ", "") in (
-            f"not{obj}.{attr}ornot{obj}.{attr}.strip()", f"leveland(not{obj}.{attr}ornot{obj}.{attr}.strip())")
-        val = ex.t(s.value)
-        ws_ok = all(isinstance(c.value, str) and c.value.strip() == "" for c in ast.walk(ex.x(s.value)) if isinstance(c, ast.Constant) and isinstance(c.value, str)) and "text" not in val.replace(".text", "")
+    for i, n in enumerate(stores):
+        st = n.stmt
+        attr = st.targets[0].attr
+        obj = text(st.targets[0].value)
+        slot = f"{obj}.{attr}"
+        blank = PT.any_of(PT.atom(f"bool({slot})", False), PT.atom(f"bool({slot}.strip())", False))
+        guard_ok = True
+        seen = False
+        for pth in pths:
+            cb = pth.conds_before(n.id)
+            if cb is None:
+                continue
+            seen = True
+            if PT.implies(cb, blank) is False:
+                guard_ok = False
+        val = ex.x(st.value)
+        ws_ok = all(isinstance(c.value, str) and c.value.strip() == "" for c in ast.walk(val) if isinstance(c, ast.Constant) and isinstance(c.value, str)) and not any(isinstance(a, ast.Attribute) and a.attr in ("text", "tail") for a in ast.walk(val))
         in_children = True
         if attr == "text":
-            gg = parent(g) if g is not None else None
-            in_children = isinstance(gg, ast.If) and text(norm(gg.test)) in (f"len({elem})", f"0 < len({elem})", f"len({elem}) != 0") and g in gg.body
+            has_children = PT.atom(f"bool({obj})")
+            for pth in pths:
+                cb = pth.conds_before(n.id)
+                if cb is not None and PT.implies(cb, has_children) is False:
+                    in_children = False
+        if not seen:
+            continue
         rep.check("W-R7", f"indent:{attr}-store#{i}", bool(guard_ok and ws_ok and in_children),
-                  f"store {text(s)} is guarded={bool(guard_ok)}, whitespace-only={ws_ok}, only-for-elements-with-children={in_children}: element data can be altered by pretty-printing", uloc(p, s))
+                  f"store {text(st)} is guarded-by-blank={bool(guard_ok)}, whitespace-only={ws_ok}, only-for-elements-with-children={in_children}: element data can be altered by pretty-printing", uloc(p, st))
